@@ -294,3 +294,19 @@ Definition twin_step (s : tstep) : tstep :=
   | TValidateValues b => TValidateValues (twin_builder b)
   | _ => s
   end.
+
+(* fail-fast steps replaced by skip steps: what the log-mode steps of a lineage would append if no
+   fail-fast step ever failed -- an upper bound for the appends of a run that panics (which
+   partitions ran, and how far, is not determined for the parallel engine) *)
+Definition relax_builder (b : builder) : builder :=
+  match b with
+  | BWithMode FailFast c => BWithMode SkipInvalid c
+  | BFailFast => BSkipInvalid
+  | _ => b
+  end.
+Definition relax_step (s : tstep) : tstep :=
+  match s with
+  | TValidate b => TValidate (relax_builder b)
+  | TValidateValues b => TValidateValues (relax_builder b)
+  | _ => s
+  end.
